@@ -238,7 +238,7 @@ func addConjuncts(facts Facts, a *Atom) {
 // condAtom: the atom that holds on the true edge of an If.
 func (f *Flow) condAtom(in *ssa.If) *Atom {
 	t := f.C.Term(in.Cond)
-	return atomOf(t, f.A.P.InstrPos(in))
+	return atomOf(t, f.A.P.CondPos(in))
 }
 
 func (f *Flow) edgeFacts(from *ssa.BasicBlock, succIdx int, out Facts) Facts {
